@@ -4,6 +4,7 @@ CONSTANTS
   Ids <- IdsT
   Lens <- LensT
   Depth = 1
+  BigTN <- BigT
   MaxN = 4
   Deviations <- NoDev
   Emit = TRUE
